@@ -12,7 +12,10 @@ def _db_replay(tf, r):
     cfg = r["config"]
     ops = _tuplify(r["ops"])
     work = VERIF / ".work" / f"replay-{os.getpid()}"
-    outs = dbimpl.run_history(tf, cfg["csv"], cfg["auto_index"], ops, str(work), cfg.get("storage_kwargs") or None)
+    import dbtie
+    tz = cfg.get("TZ")
+    with dbtie.process_zone(tz if tz and tz != os.environ.get("TZ", "UTC") else None):       # the process zone the history ran in
+        outs = dbimpl.run_history(tf, cfg["csv"], cfg["auto_index"], ops, str(work), cfg.get("storage_kwargs") or None)
     k = r.get("first_differing_step", len(ops) - 1)
     got = outs[k]
     spec = pyspec.expected(cfg["csv"], ops[:k + 1], tf)
